@@ -236,6 +236,25 @@ def _c04_specials():
     only_types = [M.Triple(s1, ty, M.IRI(G.CLASS_A)), M.Triple(s2, ty, M.IRI(G.CLASS_B))]
     for cfg in (allc, {"target_classes": [G.CLASS_A], "remove_empty_shapes": False}, _merge(allc, {"inverse_paths": True, "remove_empty_shapes": False})):
         out.append(("only-type-triples", SU.render_input(only_types, "nt"), cfg, 1))
+    # non-hierarchical instance IRIs (fewer than two slashes in the common stem) with detect_minimal_iri; predicates and classes are http
+    nonhier = [["urn:x:a1", "urn:x:a2"], ["urn:isbn:1"], ["urn:uuid:6e8bc430-9c3a-11d9-9669-0800200c9a66"], ["tag:ex.org,2020:a"],
+               ["tag:ex.org,2020:a", "tag:ex.org,2020:b"], ["mailto:a@ex.org"], ["mailto:a@ex.org", "mailto:b@ex.org"], ["tel:+34-600-000"],
+               ["urn:x:a1", G.EX + "s1"], ["mailto:a@ex.org", "https://a.org/x/i1"], ["urn:isbn:1", "urn:isbn:2", "http://a.org/x#i3"],
+               ["http:/a", "http:/b"], ["a:b", "a:c"]]
+    for k, iris in enumerate(nonhier):
+        xs = [M.IRI(i) for i in iris]
+        Tn = []
+        for j, x in enumerate(xs):
+            Tn += [M.Triple(x, ty, M.IRI(G.CLASS_A)), M.Triple(x, G.PROP_P, M.Lit("x"))]
+            if j % 2 == 0:
+                Tn.append(M.Triple(x, ty, M.IRI(G.CLASS_B)))
+        Tn += [M.Triple(xs[0], G.PROP_Q, xs[-1]), M.Triple(xs[-1], G.EX + "mbox", M.IRI("mailto:z@ex.org")),
+               M.Triple(s1, G.PROP_Q, xs[0]), M.Triple(s1, ty, M.IRI(G.EX + "C"))]
+        for fi, fmt in enumerate(("nt", "turtle", "turtle_iter")):
+            for ei, em in enumerate((None, "shape", "cons", "all")):
+                cfg = _merge(allc if (k + ei) % 3 else {"target_classes": [G.CLASS_A]}, {"detect_minimal_iri": True},
+                             {"examples_mode": em} if em else {}, {"inverse_paths": True} if (k + fi + ei) % 2 else {})
+                out.append(("non-hierarchical-instance-iris", SU.render_input(Tn, fmt, 1), cfg, (0, 0.5)[(k + ei) % 2]))
     no_types = [M.Triple(s1, G.PROP_P, M.Lit("x")), M.Triple(s1, G.PROP_Q, s2)]
     out.append(("no-type-triples", SU.render_input(no_types, "nt"), allc, 0))
     out.append(("no-type-triples", SU.render_input(no_types, "nt"), {"target_classes": [G.CLASS_A], "inverse_paths": True}, 0))
@@ -563,7 +582,8 @@ RULES = {
 BOUNDS = {
     "C04": "adversarial mixes (1-4 value kinds of one property out of untyped/typed IRIs and blank nodes, literals; 1-2 subjects; featureless "
            "instances; single-instance classes) + seeded random graphs (blank nodes 0/25/50 %) + hand-written specials (language tags, literal / "
-           "blank-node class, urn: IRIs, bare numbers, escaped literals)",
+           "blank-node class, urn: IRIs, bare numbers, escaped literals; "
+           "13 sets of non-hierarchical instance IRIs (urn:, tag:, mailto:, tel:, mixed with http) x detect_minimal_iri x examples_mode x 3 formats)",
     "C05": "pipeline graph families with IRIs renamed to local names with '-', inner '.', leading digits; 11 namespaces_dict variants colliding with "
            "'', weso-s, shapes, w-shapes, sh; custom shapes_namespace; shape maps with <IRI> and prefixed labels; remove_empty_shapes on/off",
     "C11": "pipeline graph families (C01) x target modes x inverse on/off x thresholds {0,.5,1} x sampled switch combinations, disable_or_statements default",
@@ -948,6 +968,15 @@ def check_C17(case, B):
                     emit("C17:shacl-pattern-differs", "shape %s: ShExC stem %r, SHACL sh:pattern %r" % (lab, st, pat), shacl=ttl[:1200], shexc=t1[:1200])
     except U.Skipped:
         pass
+    if case.get("stems_only"):
+        try:
+            _, t3 = run(_merge(base, {"examples_mode": "shape", "detect_minimal_iri": True}))
+            d3 = B.parse(t3)
+            same_structure(d3, "examples_mode+detect_minimal_iri", t3)
+            check_stems(d3, t3, "examples_mode+detect_minimal_iri")
+        except U.Skipped:
+            pass
+        return
     for mode in case.get("modes", ("shape", "cons", "all")):
         try:
             _, t2 = run(_merge(base, {"examples_mode": mode}))
@@ -971,10 +1000,40 @@ def check_C17(case, B):
         pass
 
 
+_C17_NESTED = [
+    ["europe/spain", "europe"], ["europe", "europe/spain", "europe/france"], ["europe/spain", "europe/spain/madrid", "europe"],
+    ["a", "ab", "abc"], ["ab", "abc", "a", "b"], ["europe", "europe#capital", "europe/spain"], ["europe/", "europe/spain", "europe/spain/"],
+    ["x/y/z", "x/y", "x", "x/y/w"], ["europe/spain", "europe/spa", "europe/s"], ["europe:1", "europe:1:2", "europe"],
+]
+
+
+def _c17_nested_cases():
+    """Nested instance IRIs (parent / child paths, a child extending a sibling, identical prefixes of different length) in ALL
+    declaration orders of the rdf:type triples (<= 4 instances)."""
+    M, S, G = U.lib()
+    cases = []
+    for k, names in enumerate(_C17_NESTED):
+        for base_ns in (("https://a.org/places/", "urn:x:places:")[k % 2], "http://a.org/v#"):
+            iris = [base_ns + n for n in names]
+            if base_ns.startswith("urn:"):
+                iris = [i.replace("/", ":").replace("#", ":") for i in iris]
+            if len(set(iris)) != len(iris):
+                continue
+            for perm in itertools.permutations(iris):
+                T = [M.Triple(M.IRI(i), M.RDF_TYPE, M.IRI(G.EX + "A")) for i in perm]
+                T += [M.Triple(M.IRI(iris[0]), G.EX + "p", M.Lit("x")), M.Triple(M.IRI(iris[-1]), G.EX + "q", M.IRI(iris[0]))]
+                cases.append({"pid": "C17", "origin": "nested-instance-iris", "nt": U.to_nt(T),
+                              "base": {"all_classes_mode": True} if k % 3 else {"target_classes": [G.EX + "A"]},
+                              "inverse": len(cases) % 2 == 1, "stems_only": True})
+    return cases
+
+
 def gen_C17(tier, rng):
     M, S, G = U.lib()
     n = {"selftest": 42, "quick": 12000, "thorough": 90000}[tier]
-    cases = []
+    cases = _c17_nested_cases()
+    if tier == "selftest":
+        cases = cases[::4]
     for gi in range(n):
         nss = _C17_NAMESPACES[gi % len(_C17_NAMESPACES)]
         T = c17_graph(rng, nss)
@@ -1121,6 +1180,23 @@ def _c15_graph(rng):
     return [tr for tr in T if not (M.is_literal(tr[2]) and tr[2].dt not in (None, M.XSD_INTEGER))]
 
 
+def _c15_nonhttp(T, rng):
+    """Renames some object / subject IRIs to non-http schemes (the endpoint substitute returns type "uri" for them)."""
+    M = U.lib()[0]
+    iris = U.dedup([x.iri for (s, p, o) in T for x in (s, o) if isinstance(x, M.IRI) and not (p == M.RDF_TYPE and x is o)])
+    schemes = ["mailto:%s@ex.org", "urn:x:%s", "tel:+34-600-%s", "urn:uuid:0000-%s", "tag:ex.org,2020:%s"]
+    mp = {}
+    for i, iri in enumerate(iris):
+        if rng.random() < 0.5:
+            mp[iri] = schemes[(i + len(mp)) % len(schemes)] % U.local_name(iri)
+    if not mp and iris:
+        mp[iris[0]] = "mailto:%s@ex.org" % U.local_name(iris[0])
+
+    def node(n, is_class=False):
+        return M.IRI(mp[n.iri]) if (isinstance(n, M.IRI) and not is_class and n.iri in mp) else n
+    return U.dedup([M.Triple(node(s), p, node(o, p == M.RDF_TYPE)) for (s, p, o) in T])
+
+
 def _c15_unlink(T, sel):
     """Drop the triples that link two selected nodes (the selection is recomputed until stable)."""
     for _ in range(10):
@@ -1137,8 +1213,12 @@ def gen_C15(tier, rng):
     M, S, G = U.lib()
     n = {"selftest": 30, "quick": 900, "thorough": 6500}[tier]
     cases = []
-    for gi in range(n):
+    n_nonhttp = {"selftest": 14, "quick": 260, "thorough": 1500}[tier]
+    for gi in range(n + n_nonhttp):
         T = _c15_graph(rng)
+        nonhttp = gi >= n
+        if nonhttp:
+            T = _c15_nonhttp(T, rng)
         classes = U.dedup([o.iri for (s, p, o) in T if p == M.RDF_TYPE])
         props = U.dedup([p for (s, p, o) in T if p != M.RDF_TYPE])
         subjects = U.dedup([s.iri for (s, p, o) in T])
@@ -1155,9 +1235,10 @@ def gen_C15(tier, rng):
             inv = (gi + k) % 2 == 1
             family = "general"
             Tk = T
-            if inv and (gi + k) % 4 != 3:
+            if inv and ((gi + k) % 4 != 3 or nonhttp):
                 Tk, family = _c15_unlink(T, sel), "no-link-between-selected-nodes"
-            cases.append({"pid": "C15", "origin": family, "nt": U.to_nt(Tk), "sel": sel, "inverse": inv, "track": (gi // 2 + k) % 2 == 1})
+            cases.append({"pid": "C15", "origin": family + ("+non-http-iris" if nonhttp else ""), "nt": U.to_nt(Tk), "sel": sel, "inverse": inv,
+                          "track": (gi // 2 + k) % 2 == 1})
     return cases
 
 
@@ -1184,9 +1265,12 @@ BOUNDS.update({
            "(literals optionally mixed in), per-instance presence and 1-3 values, optional incoming links from untyped nodes; all_classes or target subsets; "
            "6 of the 16 switch combinations per graph (quick), all 16 (thorough)",
     "C17": "21 namespace layouts (1-3 namespaces: https://, http://, urn:x:, shared / unshared path segments, common prefix exactly 'https://' / 'http://' / "
-           "'urn:'), 1-2 classes with 1-4 IRI instances, literal / IRI / instance values, all_classes or one target class, inverse on/off",
+           "'urn:'), 1-2 classes with 1-4 IRI instances, literal / IRI / instance values, all_classes or one target class, inverse on/off; plus "
+           "10 sets of nested instance IRIs (parent/child paths, sibling extensions, prefixes of different length; https, urn:, http#) in every "
+           "declaration order (stems only)",
     "C15": "seeded random graphs, IRI nodes only, plain and xsd:integer literals; selections: target classes, all classes, shape maps (node, FOCUS a C, "
-           "FOCUS p _, _ p FOCUS, SPARQL); inverse on/off (inverse: 3/4 of the graphs without a triple linking two selected nodes); depth 1",
+           "FOCUS p _, _ p FOCUS, SPARQL); inverse on/off (inverse: 3/4 of the graphs without a triple linking two selected nodes); depth 1; "
+           "plus a family in which about half of the subject / object IRIs use mailto:, urn:, tel:, tag: schemes",
 })
 
 
@@ -1443,7 +1527,41 @@ def _mutants():
         for a_triple in self._local_sgraph.yield_p_o_triples_of_an_s(target_node):
             yield a_triple
 
+    import shexer.io.sparql.query as spq
+    import shexer.core.profiling.class_profiler as cpr
+
+    def pattern_split_rewrite(self, longest_common_prefix):
+        if longest_common_prefix is None:
+            return None
+        backwards_str = longest_common_prefix[::-1]
+        last_sep_char = amis._SEP_CHARS.search(backwards_str)
+        if last_sep_char is None:
+            return None
+        candidate_min_iri = backwards_str[last_sep_char.start():][::-1]
+        if len(candidate_min_iri) < 3:
+            return None
+        if candidate_min_iri.split("/")[2] == "":          # seeded rewrite: IndexError with fewer than two slashes
+            return None
+        return candidate_min_iri
+
+    def corners_http_only(target_elem, elem_type):
+        if elem_type == spq._URI_TYPE and (target_elem.startswith("http://") or target_elem.startswith("https://")):
+            return "<" + target_elem + ">"
+        return target_elem
+
+    def lcp_zip_rewrite(uri1, uri2):
+        for i, (c1, c2) in enumerate(zip(uri1, uri2)):
+            if c1 != c2:
+                return uri1[:i]
+        return uri2
+
     return [
+        ("C04", "seeded: _determine_suitable_iri_pattern tests candidate.split('/')[2] (IndexError on urn:/tag:/mailto: stems)",
+         setattr_patch(amis.AnnotateMinIriStrategy, "_determine_suitable_iri_pattern", pattern_split_rewrite)),
+        ("C15", "seeded: _add_corners_if_needed recognises only http(s) IRIs in result cells",
+         setattr_patch(spq, "_add_corners_if_needed", corners_http_only)),
+        ("C17", "seeded: longest_common_prefix rewritten with zip, returns uri2 when no mismatch is found",
+         setattr_patch(cpr, "longest_common_prefix", lcp_zip_rewrite)),
         ("C03", "relaxation always uses '?' (also when an instance has several values)",
          setattr_patch(ass.AbstractShexingStrategy, "_change_statement_cardinality_to_all_compliant", always_opt)),
         ("C03", "with the mode off exact cardinalities are generalised to '+'",
